@@ -1106,7 +1106,7 @@ func (p *Parser) parseTVFCallExpr(ids []*ast.Ident) *ast.TVFCallExpr {
 func (p *Parser) parseTVFArg() ast.TVFArg {
 	pos := p.Token.Pos
 	switch {
-	case p.Token.IsKeywordLike("TABLE"):
+	case p.lookaheadKeywordLikeArg("TABLE"):
 		p.nextToken()
 		path := p.parsePath()
 
@@ -1114,7 +1114,7 @@ func (p *Parser) parseTVFArg() ast.TVFArg {
 			Table: pos,
 			Name:  path,
 		}
-	case p.Token.IsKeywordLike("MODEL"):
+	case p.lookaheadKeywordLikeArg("MODEL"):
 		p.nextToken()
 		path := p.parsePath()
 
@@ -1125,6 +1125,22 @@ func (p *Parser) parseTVFArg() ast.TVFArg {
 	default:
 		return p.parseExprArg()
 	}
+}
+
+// lookaheadKeywordLikeArg reports whether the current token is the pseudo keyword s followed by an identifier,
+// i.e. it introduces a TABLE, MODEL or SEQUENCE argument and is not an expression that starts with a column of that name.
+func (p *Parser) lookaheadKeywordLikeArg(s string) bool {
+	if !p.Token.IsKeywordLike(s) {
+		return false
+	}
+
+	lexer := p.Lexer.Clone()
+	defer func() {
+		p.Lexer = lexer
+	}()
+
+	p.nextToken()
+	return p.Token.Kind == token.TokenIdent
 }
 
 func (p *Parser) parseIdentOrPath() []*ast.Ident {
@@ -2029,7 +2045,7 @@ func (p *Parser) tryParseIntervalArg() *ast.IntervalArg {
 }
 
 func (p *Parser) tryParseSequenceArg() *ast.SequenceArg {
-	if !p.Token.IsKeywordLike("SEQUENCE") {
+	if !p.lookaheadKeywordLikeArg("SEQUENCE") {
 		return nil
 	}
 
